@@ -150,15 +150,9 @@ func (s *ServerDnsListener) closeConnection(u *userConnection) error {
 	s.usersLock.Lock()
 	defer s.usersLock.Unlock()
 
-	_, err := s.validateAndGetUser(u.UserId, u.remoteAddress)
-	if err == commands.BadUser {
-		// Connection already closed
-		return nil
-	} else if err == commands.BadIp {
-		// Connection belongs to another user, ignore
-		return nil
-	} else if err == commands.BadConn {
-		// Connection already closed
+	if s.connections[u.UserId] != u {
+		// Not, or no longer, the session in this slot: it has been closed already, and the slot may have been
+		// given to a new session since (which may well come from the same address and must not be touched)
 		return nil
 	}
 
